@@ -1148,6 +1148,19 @@ func Origins(p *Prog, v ssa.Value, stack []*ssa.Call) []Leaf {
 				}
 				return
 			}
+			// the result of calling a function value that is a closure built in one of the frames (a callback handed to
+			// a lock wrapper that passes its result on): what the closure returns
+			if Callee(&x.Call) == nil && !x.Call.IsInvoke() && x.Call.Signature().Results().Len() == 1 {
+				fv, st := Up(x.Call.Value, stack)
+				if mc, isMC := Resolve(fv).(*ssa.MakeClosure); isMC {
+					if cf, isF := mc.Fn.(*ssa.Function); isF && len(cf.Blocks) > 0 {
+						for _, rc := range ReturnCases(cf) {
+							walk(rc.Vals[0], st, depth+1)
+						}
+						return
+					}
+				}
+			}
 		}
 		out = append(out, Leaf{v, stack})
 	}
@@ -1268,6 +1281,65 @@ func ThinTarget(p *Prog, fn *ssa.Function) (*ssa.Function, *ssa.Call) {
 	return g, call
 }
 
+
+// ExpandReturnCases: ReturnCases(f), where a case that returns exactly the results of one call of an unexported helper
+// of the repository (`return receivedOrClosed(val, ok)`) is replaced by the helper's own return cases, read in f's
+// frame: the helper's parameters become the arguments, its path conditions on a parameter become conditions on the
+// argument (conditions on anything else are dropped).
+func ExpandReturnCases(p *Prog, f *ssa.Function) []RetCase {
+	var out []RetCase
+	for _, rc := range ReturnCases(f) {
+		var hc *ssa.Call
+		ok := len(rc.Vals) > 0
+		for i, v := range rc.Vals {
+			rv := Resolve(v)
+			var c2 *ssa.Call
+			if ex, isE := rv.(*ssa.Extract); isE && ex.Index == i {
+				c2, _ = ex.Tuple.(*ssa.Call)
+			} else if cc, isC := rv.(*ssa.Call); isC && len(rc.Vals) == 1 {
+				c2 = cc
+			}
+			if c2 == nil || (hc != nil && hc != c2) {
+				ok = false
+				break
+			}
+			hc = c2
+		}
+		var h *ssa.Function
+		if ok && hc != nil {
+			h = Callee(&hc.Call)
+		}
+		if h == nil || !p.InRepo(h) || len(h.Blocks) == 0 || h == f || h.Object() == nil || h.Object().Exported() || h.Signature.Results().Len() != len(rc.Vals) {
+			out = append(out, rc)
+			continue
+		}
+		up := func(v ssa.Value) (ssa.Value, bool) {
+			r := Resolve(v)
+			for i, prm := range h.Params {
+				if r == ssa.Value(prm) && i < len(hc.Call.Args) {
+					return hc.Call.Args[i], true
+				}
+			}
+			return v, false
+		}
+		for _, rc2 := range ReturnCases(h) {
+			nc := RetCase{Ret: rc.Ret, Via: rc.Via}
+			nc.Facts = append(nc.Facts, rc.Facts...)
+			for _, cnd := range rc2.Facts {
+				n := Normalize(cnd)
+				if a, isP := up(n.V); isP {
+					nc.Facts = append(nc.Facts, Cond{V: a, True: n.True, If: cnd.If})
+				}
+			}
+			for _, v := range rc2.Vals {
+				a, _ := up(v)
+				nc.Vals = append(nc.Vals, a)
+			}
+			out = append(out, nc)
+		}
+	}
+	return out
+}
 
 // SameParamsImpl: while f only forwards all of its parameters, in order (possibly followed by constants for the extra
 // parameters of a more general form), to one function of the repository and returns that function's results
